@@ -24,6 +24,10 @@ CHECKS = {
  "C07": dict(level="exploration", design="3/C07 + Appendix A.4", technique="runtime monitoring, exhaustive small chains + metamorphic comparison",
    text="All chains of up to 3 (quick) / 4 (thorough) elements over a 14-spec alphabet under real uid {0,U} x stdin {pty,pipe}, plus random chains of up to 20 elements, are evaluated by the production library; logged/dropped is compared with chain_model, a drop must leave every sink empty with the exec still happening once, and chains with equal element sets must decide equally.",
    note="Filter verdicts are derived from the process state the harness itself set up (uid, pty, ancestor names read from /proc)."),
+ "C08": dict(level="exploration", design="3/C08 + Appendix A.1", technique="runtime monitoring against an executable reference model of the INI dialect and option rules",
+   text="Generated snoopy.ini files (full inih grammar: sections, both separators, comments, inline comments, quotes, BOM, continuation lines, duplicates, CRLF, over-long lines; per-option valid spellings, near misses, garbage; numbers 0..10^15 with each suffix) are parsed by the production library and the values reported by its exported option-value API are compared with ini_model.py; length options are additionally checked for monotonicity over dense ladders; the output of the real `snoopyctl conf` is fed back as a config file and must reproduce every setting.",
+   note="ini_model mirrors the documented inih build flags of this repository; open points (unparsable boolean/name: default or previous; length 0; trailing garbage; lone quote; doubled LOG_ prefix) accept several values. Effects of the parsed values on records are covered by C04 (priority, ident, sink)."),
+
  "C14": dict(level="exploration", design="3/C14", technique="runtime monitoring under constructed uids",
    text="Children running under real uid R (0, 1, 999, 2^16-1, 2^16, 2^31-1, 2^31, 2^32-2) with an unrelated effective uid consult only_uid:L, exclude_uid:L and only_root through the production library for generated lists with near misses; outcomes are compared with exact set membership and only_uid xor exclude_uid.",
    note="Lists limited to one config line (about 85 uids)."),
